@@ -144,11 +144,11 @@ FLOW_MC_Q = [mc("MCFlow", "MCFlow_quick.cfg", workers=8),
              mc("MCFlow", "MCFlow_DespiteNoFraming.cfg", workers=4, expect_violation="Refines"),
              mc("MCFlow", "MCFlow_ReasonCap4.cfg", workers=4, expect_violation="NotPanicked")]
 FLOW_MC_T = [mc("MCFlow", "MCFlow_thorough.cfg", workers=16, timeout=3000, heap="16g")]
-FLOW_ASSUME = ["conventions of the API respected by the drivers: try_read_100 only while can_keep_await_100(); try_response not called again after the final response; as_new_flow at most once",
+FLOW_ASSUME = ["conventions of the API respected by the model (the C11 driver also looks again after a refusal): try_read_100 only while can_keep_await_100(); try_response not called again after the final response; as_new_flow at most once",
                "partial heads offered to flows stop before the end of the first field line (later cut points are C05's subject, incl. known finding KF1)"]
 PROPS["C09"] = {
     "driver": "c09", "trace_spec": "TraceFlow", "scripts": "flow",
-    "mc_quick": FLOW_MC_Q, "mc_thorough": FLOW_MC_T,
+    "mc_quick": FLOW_MC_Q + [mc("MCFlow", "MCFlow_EmptyWriteIgnored.cfg", workers=4, expect_violation="Refines")], "mc_thorough": FLOW_MC_T,
     "require_kinds": ["call"],
     "rule": "one case = one flow history: a model edge-cover script (every transition of MCFlow, each followed by further calls in the target state) or a seeded random history "
             "over the full menu (9 methods, both versions, Expect, despite-method, request framings, interim 100 / refusals / late 100, every body framing, redirects, premature advance in a random state); "
